@@ -67,7 +67,6 @@ EX_PP = {"none": None, "calcite": " Calcite 0 0.01\n"}
 SU_DEFS = {
     "explicit-noedl": (" Hfo_wOH 0.001 600 1\n Hfo_sOH 0.00005\n -no_edl\n", {"Hfo_w": 0.001, "Hfo_s": 0.00005}, None),
     "explicit-ddl": (" Hfo_wOH 0.001 600 1\n Hfo_sOH 0.00005\n", {"Hfo_w": 0.001, "Hfo_s": 0.00005}, None),
-    "explicit-charged": (" Hfo_wOH2+ 0.0005 600 1\n Hfo_wO- 0.0005\n Hfo_sOH 0.00005\n", {"Hfo_w": 0.001, "Hfo_s": 0.00005}, None),
     "equil-noedl": (" Hfo_w 0.001 600 1\n Hfo_s 0.00005\n -equilibrate 1\n -no_edl\n", {"Hfo_w": 0.001, "Hfo_s": 0.00005}, None),
     "equil-ddl": (" Hfo_w 0.001 600 1\n Hfo_s 0.00005\n -equilibrate 1\n", {"Hfo_w": 0.001, "Hfo_s": 0.00005}, None),
     "equil-donnan": (" Hfo_w 0.001 600 1\n Hfo_s 0.00005\n -equilibrate 1\n -donnan\n", {"Hfo_w": 0.001, "Hfo_s": 0.00005}, None),
@@ -282,12 +281,14 @@ def judge_sites(kind, r, dname, sites, phases):
         for p in phases:
             j.phase(row, p, 0.0, None, [0.0])
         for master, exp in sorted(sites.items()):
+            ratio = None
             if isinstance(exp, tuple):
                 m = row.get(O.bname("m_", exp[1]))
                 if not O.fnum(m):
                     raise RuntimeError("observable missing: EQUI(%s)" % exp[1])
-                exp = exp[2] * m
-            j.sites(row, master, exp, kind, dname)
+                ratio = exp[2]
+                exp = ratio * m
+            j.sites(row, master, exp, kind, dname, ratio)
     return j
 
 
